@@ -259,6 +259,19 @@ func runC02(c *runCfg) error {
 		cfg := cfgT{limit: 1024, auth: "none", term: "none", parse: []parseEntry{{query: []byte("wide"), stmts: []stmtT{st}}}}
 		emitSession(c, lockCase(id, "wide", cfg, stdStartup, [][]byte{mQuery([]byte("wide")), mParse(nil, []byte("wide"), 0), mDescribe('S', nil), mBind(nil, nil, nil, nil, []int{1}), mDescribe('P', nil), mExecute(nil, 0), mSync()}))
 		id++
+		// result-format lists of every length 0..ncols+2 (fewer codes than columns, more codes than columns):
+		// the declared field counts of RowDescription and DataRow match the fields that follow
+		if ncols >= 1 && ncols <= 17 {
+			for k := 0; k <= ncols+2 && k <= 8; k++ {
+				rf := make([]int, k)
+				for i := range rf {
+					rf[i] = (i + k) % 2
+				}
+				emitSession(c, lockCase(id, "rfcount", cfg, stdStartup, [][]byte{mParse([]byte("s"), []byte("wide"), 0), mBind([]byte("p"), []byte("s"), nil, nil, rf),
+					mDescribe('P', []byte("p")), mExecute([]byte("p"), 0), mSync(), mBind(nil, []byte("s"), nil, nil, rf), mExecute(nil, 0), mDescribe('P', nil), mSync()}))
+				id++
+			}
+		}
 	}
 	return nil
 }
